@@ -2,6 +2,7 @@ package main
 
 import (
 	"fmt"
+	"go/token"
 	"go/types"
 	"strings"
 
@@ -417,6 +418,49 @@ func c34(r *Run) {
 			}
 		})
 		r.check(bad == "", "C34.R1", short(fnName(f))+":no-float", w.rel(f.Pos()), "integer arithmetic only", "balance conversion goes through floating point ("+bad+"): a 53-bit mantissa cannot represent all 64-bit balances or all 9-digit fractions, so values do not round-trip")
+	}
+	// R3: the parser rejects exactly the amounts above 2^64-1: the success value whole*unit+frac is either computed with
+	// checked helpers or returned only under whole <= (MaxUint64 - frac)/unit (a coarser test rejects in-range balances
+	// near the top of the range, a weaker one wraps)
+	r.rule("C34.R3", "K6", "ParseBalance combines whole*unit+frac under the exact range test (or with checked arithmetic)", 1)
+	if pb := w.Fn(H + "/utils.ParseBalance"); pb != nil {
+		okk, why := false, "no success return of the form whole*unit + frac found"
+		for _, o := range returnOutcomes(pb) {
+			if !o.isPotentialSuccess() || len(o.Vals) != 2 {
+				continue
+			}
+			v := strip(o.Vals[0])
+			if c, isCall := v.(*ssa.Call); isCall && strings.Contains(calleeName(c), "utils/math.") {
+				okk = true // checked helpers (their own error paths carry the range failure)
+				continue
+			}
+			add, isAdd := v.(*ssa.BinOp)
+			if !isAdd || add.Op != token.ADD {
+				okk, why = false, "the parsed amount is not whole*unit + frac: "+term(v)
+				break
+			}
+			mul, frac := add.X, add.Y
+			if m, ok := strip(mul).(*ssa.BinOp); !ok || m.Op != token.MUL {
+				mul, frac = add.Y, add.X
+			}
+			m, ok := strip(mul).(*ssa.BinOp)
+			if !ok || m.Op != token.MUL {
+				okk, why = false, "the parsed amount is not whole*unit + frac: "+term(v)
+				break
+			}
+			const max = "18446744073709551615"
+			want := []string{
+				term(m.X) + " <= ((" + max + " - " + term(frac) + ") / " + term(m.Y) + ")",
+				term(m.Y) + " <= ((" + max + " - " + term(frac) + ") / " + term(m.X) + ")",
+			}
+			if hasStr(o.Conds, want[0]) || hasStr(o.Conds, want[1]) {
+				okk = true
+			} else {
+				okk, why = false, "whole*unit + frac is returned without the exact range test "+want[0]+" (conditions: "+strings.Join(o.Conds, " ; ")+")"
+				break
+			}
+		}
+		r.check(okk, "C34.R3", "ParseBalance:exact-range-test", w.rel(pb.Pos()), "whole <= (MaxUint64 - frac)/unit on the success path", why)
 	}
 	// Decimals: the constant 9 appears as loop bound / width in both directions (via the shared helper or directly)
 	dec := "9"
